@@ -1,5 +1,325 @@
 package main
 
+// Source instrumenter for the cooperative scheduler (DESIGN §2.2). Purely syntactic:
+//   - import redirection (sync -> vsync, sync/atomic -> vatomic, time -> vtime), local name kept;
+//   - go f(a, b)        -> args evaluated in place, then vsched.Go(func() { f(a0, b0) });
+//   - ch <- v           -> vsched.Send(ch); ch <- v
+//   - <-ch / x := <-ch  -> vsched.Recv(ch, done); ...          (statement level only)
+//   - select { ... }    -> switch vsched.Select(hasDefault, cases...) { case i: <op>; body ... }
+// Anything it does not understand (receive inside a larger expression, range over a channel field)
+// is a loud error, never a silently wrong schedule.
+
+import (
+	"fmt"
+	"go/ast"
+	"go/parser"
+	"go/printer"
+	"go/token"
+	"os"
+	"path/filepath"
+	"strconv"
+	"strings"
+)
+
+const vpkg = "github.com/bloxapp/ssv/zzverif/"
+
+var defaultImports = map[string]string{
+	"sync":        vpkg + "vsync",
+	"sync/atomic": vpkg + "vatomic",
+	"time":        vpkg + "vtime",
+}
+
 func instrumentDir(sp InstrumentSpec, done map[string]bool) {
-	die("instrumenter not built yet")
+	dir := abs(sp.Dir)
+	var files []string
+	if len(sp.Files) > 0 {
+		for _, f := range sp.Files {
+			files = append(files, filepath.Join(dir, f))
+		}
+	} else {
+		ents, err := os.ReadDir(dir)
+		if err != nil {
+			die("instrument %s: %v", dir, err)
+		}
+		for _, e := range ents {
+			if strings.HasSuffix(e.Name(), ".go") && !strings.HasSuffix(e.Name(), "_test.go") {
+				files = append(files, filepath.Join(dir, e.Name()))
+			}
+		}
+	}
+	imports := defaultImports
+	if sp.Imports != nil {
+		imports = sp.Imports
+	}
+	for _, f := range files {
+		instrumentFile(f, imports)
+		done[f] = true
+	}
+}
+
+type instr struct {
+	fset     *token.FileSet
+	file     string
+	usedSch  bool
+	tmpCount int
+}
+
+func (in *instr) fail(n ast.Node, format string, a ...interface{}) {
+	die("%s: %s: "+format, append([]interface{}{in.file, in.fset.Position(n.Pos())}, a...)...)
+}
+
+func sel(pkg, name string) ast.Expr {
+	return &ast.SelectorExpr{X: ast.NewIdent(pkg), Sel: ast.NewIdent(name)}
+}
+
+func call(fun ast.Expr, args ...ast.Expr) *ast.CallExpr { return &ast.CallExpr{Fun: fun, Args: args} }
+
+// doneFunc returns `func() bool { return X.Err() != nil }` if ch is the expression X.Done().
+func doneFunc(ch ast.Expr) ast.Expr {
+	if c, ok := ch.(*ast.CallExpr); ok && len(c.Args) == 0 {
+		if s, ok := c.Fun.(*ast.SelectorExpr); ok && s.Sel.Name == "Done" {
+			return &ast.FuncLit{
+				Type: &ast.FuncType{Params: &ast.FieldList{}, Results: &ast.FieldList{List: []*ast.Field{{Type: ast.NewIdent("bool")}}}},
+				Body: &ast.BlockStmt{List: []ast.Stmt{&ast.ReturnStmt{Results: []ast.Expr{
+					&ast.BinaryExpr{X: call(&ast.SelectorExpr{X: s.X, Sel: ast.NewIdent("Err")}), Op: token.NEQ, Y: ast.NewIdent("nil")}}}}},
+			}
+		}
+	}
+	return ast.NewIdent("nil")
+}
+
+func recvOf(e ast.Expr) (ast.Expr, bool) {
+	if u, ok := e.(*ast.UnaryExpr); ok && u.Op == token.ARROW {
+		return u.X, true
+	}
+	return nil, false
+}
+
+// rewriteStmt returns the replacement statements for s (or nil = keep).
+func (in *instr) rewriteStmt(s ast.Stmt) []ast.Stmt {
+	switch st := s.(type) {
+	case *ast.GoStmt:
+		in.usedSch = true
+		var pre []ast.Stmt
+		c := st.Call
+		newArgs := make([]ast.Expr, len(c.Args))
+		for i, a := range c.Args {
+			in.tmpCount++
+			name := ast.NewIdent(fmt.Sprintf("verifArg%d", in.tmpCount))
+			pre = append(pre, &ast.AssignStmt{Lhs: []ast.Expr{name}, Tok: token.DEFINE, Rhs: []ast.Expr{a}})
+			newArgs[i] = name
+		}
+		var body ast.Stmt = &ast.ExprStmt{X: &ast.CallExpr{Fun: c.Fun, Args: newArgs, Ellipsis: c.Ellipsis}}
+		fl := &ast.FuncLit{Type: &ast.FuncType{Params: &ast.FieldList{}}, Body: &ast.BlockStmt{List: []ast.Stmt{body}}}
+		if f, ok := c.Fun.(*ast.FuncLit); ok && len(c.Args) == 0 {
+			fl = f
+		}
+		return []ast.Stmt{&ast.BlockStmt{List: append(pre, &ast.ExprStmt{X: call(sel("vsched", "Go"), fl)})}}
+	case *ast.SendStmt:
+		in.usedSch = true
+		return []ast.Stmt{&ast.ExprStmt{X: call(sel("vsched", "Send"), st.Chan)}, st}
+	case *ast.ExprStmt:
+		if ch, ok := recvOf(st.X); ok {
+			in.usedSch = true
+			return []ast.Stmt{&ast.ExprStmt{X: call(sel("vsched", "Recv"), ch, doneFunc(ch))}, st}
+		}
+	case *ast.AssignStmt:
+		if len(st.Rhs) == 1 {
+			if ch, ok := recvOf(st.Rhs[0]); ok {
+				in.usedSch = true
+				return []ast.Stmt{&ast.ExprStmt{X: call(sel("vsched", "Recv"), ch, doneFunc(ch))}, st}
+			}
+		}
+	case *ast.SelectStmt:
+		in.usedSch = true
+		hasDefault := "false"
+		var cases []ast.Expr
+		var clauses []ast.Stmt
+		idx := 0
+		for _, cl := range st.Body.List {
+			cc := cl.(*ast.CommClause)
+			if cc.Comm == nil {
+				hasDefault = "true"
+				clauses = append(clauses, &ast.CaseClause{Body: cc.Body})
+				continue
+			}
+			var op ast.Stmt = cc.Comm
+			switch cm := cc.Comm.(type) {
+			case *ast.SendStmt:
+				cases = append(cases, call(sel("vsched", "SendCase"), cm.Chan))
+			case *ast.ExprStmt:
+				ch, ok := recvOf(cm.X)
+				if !ok {
+					in.fail(cm, "unsupported select communication")
+				}
+				cases = append(cases, call(sel("vsched", "RecvCase"), chOrNil(ch), doneFunc(ch)))
+			case *ast.AssignStmt:
+				ch, ok := recvOf(cm.Rhs[0])
+				if !ok || len(cm.Rhs) != 1 {
+					in.fail(cm, "unsupported select communication")
+				}
+				cases = append(cases, call(sel("vsched", "RecvCase"), chOrNil(ch), doneFunc(ch)))
+			default:
+				in.fail(cc, "unsupported select communication")
+			}
+			body := append([]ast.Stmt{op}, cc.Body...)
+			// a declared-but-unused receive variable would not compile any more than before
+			clauses = append(clauses, &ast.CaseClause{List: []ast.Expr{&ast.BasicLit{Kind: token.INT, Value: strconv.Itoa(idx)}}, Body: body})
+			idx++
+		}
+		args := append([]ast.Expr{ast.NewIdent(hasDefault)}, cases...)
+		return []ast.Stmt{&ast.SwitchStmt{Tag: call(sel("vsched", "Select"), args...), Body: &ast.BlockStmt{List: clauses}}}
+	}
+	return nil
+}
+
+// chOrNil: for X.Done() the readiness comes from the done function; the channel itself is only
+// evaluated in the chosen case.
+func chOrNil(ch ast.Expr) ast.Expr {
+	if id, ok := doneFunc(ch).(*ast.Ident); ok && id.Name == "nil" {
+		return ch
+	}
+	return ast.NewIdent("nil")
+}
+
+func (in *instr) rewriteList(list []ast.Stmt) []ast.Stmt {
+	var out []ast.Stmt
+	for _, s := range list {
+		// labelled statements: rewrite the inner statement, keep the label on the first result
+		if ls, ok := s.(*ast.LabeledStmt); ok {
+			if r := in.rewriteStmt(ls.Stmt); r != nil {
+				ls.Stmt = r[0]
+				out = append(out, ls)
+				out = append(out, r[1:]...)
+				continue
+			}
+		}
+		if r := in.rewriteStmt(s); r != nil {
+			out = append(out, r...)
+		} else {
+			out = append(out, s)
+		}
+	}
+	return out
+}
+
+func (in *instr) walk(n ast.Node) {
+	// post-order: inner blocks first
+	ast.Inspect(n, func(x ast.Node) bool {
+		switch b := x.(type) {
+		case *ast.BlockStmt:
+			for _, s := range b.List {
+				in.walk(s)
+			}
+			b.List = in.rewriteList(b.List)
+			return false
+		case *ast.CaseClause:
+			for _, s := range b.Body {
+				in.walk(s)
+			}
+			b.Body = in.rewriteList(b.Body)
+			return false
+		case *ast.CommClause:
+			for _, s := range b.Body {
+				in.walk(s)
+			}
+			b.Body = in.rewriteList(b.Body)
+			return false
+		case *ast.RangeStmt:
+			if s, ok := b.X.(*ast.SelectorExpr); ok {
+				n := strings.ToLower(s.Sel.Name)
+				if strings.Contains(n, "chan") || n == "inbox" || n == "c" {
+					in.fail(b, "range over what looks like a channel is not supported")
+				}
+			}
+		case *ast.UnaryExpr:
+			// receives that are not at statement level were not rewritten above
+			_ = b
+		}
+		return true
+	})
+}
+
+func instrumentFile(file string, imports map[string]string) {
+	fset := token.NewFileSet()
+	// comments are dropped (new nodes have no positions and would attract them); build
+	// constraints are carried over verbatim
+	raw, err := os.ReadFile(file)
+	if err != nil {
+		die("%v", err)
+	}
+	constraint := ""
+	for _, line := range strings.Split(string(raw), "\n") {
+		if strings.HasPrefix(line, "//go:build") || strings.HasPrefix(line, "// +build") {
+			constraint += line + "\n"
+		}
+		if strings.HasPrefix(line, "package ") {
+			break
+		}
+	}
+	f, err := parser.ParseFile(fset, file, raw, 0)
+	if err != nil {
+		die("parse %s: %v", file, err)
+	}
+	in := &instr{fset: fset, file: file}
+	for _, d := range f.Decls {
+		if fd, ok := d.(*ast.FuncDecl); ok && fd.Body != nil {
+			in.walk(fd.Body)
+		}
+	}
+	// a receive expression left anywhere else than directly after a vsched gate is unsupported
+	checkStrayReceives(in, f)
+	for _, im := range f.Imports {
+		p, _ := strconv.Unquote(im.Path.Value)
+		if to, ok := imports[p]; ok {
+			if im.Name == nil {
+				im.Name = ast.NewIdent(filepath.Base(p))
+			}
+			im.Path.Value = strconv.Quote(to)
+		}
+	}
+	var sb strings.Builder
+	if err := printer.Fprint(&sb, fset, f); err != nil {
+		die("print %s: %v", file, err)
+	}
+	src := sb.String()
+	if constraint != "" {
+		src = constraint + "\n" + src
+	}
+	if in.usedSch {
+		// add the scheduler import right after the package clause
+		i := strings.Index(src, "\nimport ")
+		if i < 0 {
+			die("%s: no import declaration", file)
+		}
+		src = src[:i] + "\nimport vsched " + strconv.Quote(vpkg+"vsched") + "\n" + src[i:]
+	}
+	// comments may have been displaced by the rewriting: drop free-floating ones is not needed for
+	// compilation; make sure the result parses
+	if _, err := parser.ParseFile(token.NewFileSet(), file, src, 0); err != nil {
+		die("instrumented %s does not parse: %v", file, err)
+	}
+	overlay[file] = writeGen(genName(file), []byte(src))
+}
+
+func checkStrayReceives(in *instr, f *ast.File) {
+	// every `<-x` must be the whole X of an ExprStmt or the single Rhs of an AssignStmt
+	allowed := map[ast.Expr]bool{}
+	ast.Inspect(f, func(x ast.Node) bool {
+		switch s := x.(type) {
+		case *ast.ExprStmt:
+			allowed[s.X] = true
+		case *ast.AssignStmt:
+			if len(s.Rhs) == 1 {
+				allowed[s.Rhs[0]] = true
+			}
+		}
+		return true
+	})
+	ast.Inspect(f, func(x ast.Node) bool {
+		if u, ok := x.(*ast.UnaryExpr); ok && u.Op == token.ARROW && !allowed[u] {
+			in.fail(u, "receive expression inside a larger expression is not supported")
+		}
+		return true
+	})
 }
